@@ -117,6 +117,23 @@ PROPS = {
                      "advance_slices meets its contract beyond 5 slices x 4 bytes (Kani harness bound)"],
         unreached=["FormattedEntryIoStream::next (Format trait not modelled)"],
     ),
+    "C11": dict(
+        verus=[("hist", {})],
+        technique="Verus contracts + loop invariants on the real observation-capture loop (Histogram::add_value's Capturer::metric), the re-aggregation loop (AggregateValue<HistogramClosed>::insert) and the sort-and-merge strategy (record_many, drain)",
+        level_text="Deductive proof (Verus/z3), for distributions and value lists of any length: (capture) every observation handed to a histogram is recorded exactly once, in order - a plain observation once at its value, "
+                   "Repeated{total, n} n times at total/n, an empty Repeated not at all - hence as many values are recorded as the observations have occurrences (lemma); (re-aggregation) inserting a closed histogram records "
+                   "every closed observation the same way; (sort-and-merge) record_many appends `count` copies, and drain reports exactly the run-length encoding of the recorded non-NaN values in ascending order - one "
+                   "Repeated{value x count, count} per maximal run of equal values, counts adding up to the number of values (lemma) - and leaves the strategy empty. "
+                   "NOT decided: the exponential strategies (bucket arithmetic of the `histogram` dependency, 6.25% bound), the atomic variants / concurrent recording, SharedHistogram's twin capture loop.",
+        level_note="Trusted: Verus + z3. Floating point is opaque: `a / b`, `a * b`, `u as f64`, `a == b`, `is_nan` are deterministic uninterpreted functions of their operands (axioms / rewrites RF, S4), so 'mean' and 'value x count' "
+                   "are stated with those functions and only counts are exact. Exact-text rewrites S1 (sort_by_key(OrderedFloat) -> sorted permutation w.r.t. an opaque total order), S2 (iter().copied().filter(!is_nan)), "
+                   "S3 (extend(repeat_n)); R3b, R14; std's Iterator/IntoIterator restated over element sequences; usize is 64 bits; the trait's default `record` = record_many(value, 1) is restated, not extracted.",
+        explanation="histogram capture, re-aggregation and sort-and-merge conservation",
+        assumptions=["the exponential / atomic strategies meet the strategy contract (not verified: dependency bucket arithmetic, atomics)",
+                     "OrderedFloat's order places ==-equal floats next to each other (so runs are maximal)"],
+        unreached=["ExponentialAggregationStrategy / AtomicExponentialAggregationStrategy record_many and drain", "SharedHistogram::add_value's Capturer (textual twin of the verified one, &self strategy)",
+                   "Histogram::add_value / close wiring, HistogramClosed::write"],
+    ),
     "C12": dict(
         verus=[("emf_sample", {})],
         kani=["writer_sample", "emf_num", "writer_congress", "writer_congress_rates"],
